@@ -15,15 +15,18 @@ TLA = os.path.join(VERIF, "tla")
 
 META = dict(
     engine="tlc-replay",
-    technique="TLA+ spec XSchema.tla (rows, cardinalities, presence constraints, alias tags; documents grown by TLC) "
-              "model-checked; every TLC document replayed into the real mjXSchema::Check through a DOM-only shim",
-    text="Decides the schema-enforcement clause: conforming documents are accepted and documents with an unknown "
-         "element/attribute, a broken cardinality or a broken presence constraint are rejected, at every nesting "
-         "position including below alias elements, for all documents within the bounds.",
-    note="Only the schema clause of C37 is claimed. The 'never crashes on any byte string' clause is fuzzing+sanitizers "
-         "and the tokenizer (tinyxml2) is not available offline; enum-keyword/attribute-type checks live in the reader, "
-         "not in mjXSchema, and are not covered. Synthetic table exercising every row type and constraint kind; the "
-         "real MJCF[] table is loaded only to check it constructs without error. Trusted: TLC, shim/domxml/tinyxml2.h.",
+    technique="TLA+ specs XSchema.tla (synthetic table: rows, cardinalities, presence constraints, alias tags) and "
+              "MjcfDocs.tla (24-row slice of the real MJCF table with attribute types and enum keywords), documents grown "
+              "and judged by TLC; every TLC document replayed into the real mjXSchema::Check (DOM shim) and into the real "
+              "reader mj_parseXMLString / mj_compile (all of src/xml linked against an XML stand-in); seeded mutants of "
+              "valid documents and shipped models under ASan/UBSan for the crash clause",
+    text="Decides the schema-enforcement clause for all documents within the bounds: conforming documents are accepted "
+         "(or rejected only by a later, non-schema stage) and documents with a wrong root, an unknown element/attribute, a "
+         "broken cardinality, a broken presence constraint, an invalid enum keyword or an ill-typed attribute value are "
+         "rejected with a non-empty message, at every nesting position including below alias elements. The never-crashes "
+         "clause is sampled, not decided: seeded mutants (16 mutators) must not kill, hang or abort the reader.",
+    note="The tokenizer is the stand-in shim/fullxml/tinyxml2.h, not tinyxml2 (trusted base, DESIGN 9.6); only crashes "
+         "count in the mutation stage. URDF input is not covered. Trusted: TLC, shim/domxml, shim/fullxml.",
     ref="DESIGN.md section 4 C37")
 
 
@@ -125,11 +128,25 @@ def run(ctx):
     ctx.cov["accepted"] = nacc
     ctx.cov["rejected"] = nrej
     ctx.cov["exhaustive"] = True
-    ctx.cov["rule"] = ("every document of the exhaustive run (%d states) + %d distinct simulated documents; non-trivial = "
-                       "more than the bare root; distinct = distinct documents" % (len(states), len(docs) - len(states)))
+    rule = ("mjXSchema over the synthetic table: every document of the exhaustive run (%d states) + %d distinct simulated "
+            "documents; non-trivial = more than the bare root; distinct = distinct documents" % (len(states), len(docs) - len(states)))
+    # the real reader (all of src/xml against the XML stand-in) over documents generated from a slice of the real table,
+    # and the crash clause over mutated documents (MjcfDocs.tla, checks/_c37_real.py)
+    from checks import _c37_real
+    _c37_real.run_real(ctx)
+    ctx.cov["exhaustive"] = False
+    ctx.cov["rule"] = rule + "; real reader: " + str(ctx.cov.get("rule") or "documents of MjcfDocs.tla + seeded mutants")
 
 
 def replay(ctx, rp):
+    if rp["replay"].get("mode") == "real":
+        from checks import _c37_real
+        bad = _c37_real.replay_real(ctx, rp["replay"])
+        if bad:
+            ctx.violation(rp["signature"], bad[1], rp["replay"])
+        ctx.case({"r": 1})
+        ctx.case({"r": 2})
+        return
     exe = harness()
     r = drv.run_script(exe, rp["replay"]["script"], timeout=60)
     got = r.lines[-1] if r.lines else "<none>"
